@@ -273,3 +273,6 @@ def run_case(case):
           "state": "%s:%r" % (case["sub"], case["a"]), "digest": common.digest(digest[:5000]), "violations": viol,
           "traces": 0, "sample": {"sub": case["sub"], "first_operand": case["a"], "results": len(digest),
                                   "example": digest[:2]}}
+
+# (appended: sub-lattices added after the seeded waves; kept out of the original RULE text for readability)
+RULE = RULE + '; every failing operand combination is named so that findings are identified by their exact input sets'
